@@ -43,6 +43,8 @@ pub enum Bad {
     ChunkBadTerminator,
     ChunkCtlInExt,
     ChunkLfOnly,
+    /// chunk data followed by a bare LF (k % 3: after the data / after the last-chunk line / both)
+    ChunkDataLfOnly(u8),
     // ---- lenient: either parsed exactly as rendered or rejected
     Trailer,
     BareLfHead,
@@ -221,6 +223,11 @@ pub fn render_bad(b: &Bad, n: usize) -> BadRender {
         Bad::ChunkBadTerminator => chunk_bad("5\r\nhello\r\n0\r\nX\r\n", b"hello"),
         Bad::ChunkCtlInExt => chunk_bad("5;a=\x01b\r\nhello\r\n0\r\n\r\n", b""),
         Bad::ChunkLfOnly => chunk_bad("5\nhello\r\n0\r\n\r\n", b""),
+        Bad::ChunkDataLfOnly(k) => match k % 3 {
+            0 => chunk_bad("5\r\nhello\n0\r\n\r\n", b"hello"),
+            1 => chunk_bad("5\r\nhello\r\n0\r\n\n", b"hello"),
+            _ => chunk_bad("5\r\nhello\n3\r\nabc\n0\r\n\r\n", b"hello"),
+        },
         Bad::Trailer => BadRender {
             lenient: true,
             ..chunk_bad("5\r\nhello\r\n0\r\nX-Trailer: v\r\n\r\n", b"hello")
@@ -309,6 +316,7 @@ pub fn bad_strategy() -> impl Strategy<Value = Bad> {
         Just(Bad::ChunkBadTerminator),
         Just(Bad::ChunkCtlInExt),
         Just(Bad::ChunkLfOnly),
+        (0u8..3).prop_map(Bad::ChunkDataLfOnly),
         Just(Bad::Trailer),
         Just(Bad::BareLfHead),
         any::<u16>().prop_map(Bad::TruncHead),
@@ -473,7 +481,7 @@ pub fn run_case(cfg: &RunCfg, case: &Case, strict: bool) -> Verdict {
             Bad::TeValue(_) | Bad::TeTwice | Bad::TeHttp10 => "bad-transfer-encoding",
             Bad::HugeHead(_) | Bad::TooManyHeaders => "bad-oversize",
             Bad::ChunkNonHex(_) | Bad::ChunkEmptySize | Bad::ChunkSizeOverflow | Bad::ChunkMissingCrlf
-            | Bad::ChunkBadTerminator | Bad::ChunkCtlInExt | Bad::ChunkLfOnly => "bad-chunk-syntax",
+            | Bad::ChunkBadTerminator | Bad::ChunkCtlInExt | Bad::ChunkLfOnly | Bad::ChunkDataLfOnly(_) => "bad-chunk-syntax",
             Bad::Trailer | Bad::BareLfHead => "lenient",
             Bad::TruncHead(_) | Bad::TruncLenBody(_) | Bad::TruncChunked(_) => "truncated",
             _ => "bad-head-other",
